@@ -1,6 +1,7 @@
 package streams
 
 import (
+	"github.com/paulsonkoly/chess-3/board"
 	"github.com/paulsonkoly/chess-3/move"
 	"github.com/paulsonkoly/chess-3/movegen"
 
@@ -11,7 +12,14 @@ import (
 // gen: board-in -> generated noisy moves, generated quiet moves, playable moves (exact order).
 // ipl: board-in -> all of the 32768 encodings accepted by IsPseudoLegal.
 func init() {
-	hx.Register(&hx.Stream{Name: "gen", Gen: genPositions, Run: runGen})
+	hx.Register(&hx.Stream{Name: "gen", Gen: genPositionsG3, Run: runGen})
+	// c01valid: the domain filter of stream gen (posgen.Valid) against Spec `valid`, on the very positions
+	// stream gen is run on (same generator, same seed); model side = run_valid
+	// (its positions are not counted as non-trivial a second time)
+	hx.Register(&hx.Stream{Name: "c01valid", Run: runValid,
+		Gen: func(rng *hx.Rng, n int, tier string, emit func(hx.Input)) {
+			genPositionsG3(rng, n, tier, func(in hx.Input) { in.NonTrivial = false; emit(in) })
+		}})
 	hx.Register(&hx.Stream{Name: "ipl", Gen: genPositions, Run: runIpl})
 }
 
@@ -57,4 +65,64 @@ func genPositions(rng *hx.Rng, n int, tier string, emit func(hx.Input)) {
 		emit(hx.Input{In: (&hx.Nums{}).BoardIn(p.B).String(), Desc: p.Desc(),
 			Tags: append(posgen.Tags(p.B), p.Kind), NonTrivial: true, Key: p.B.FEN()})
 	})
+}
+
+// genPositionsG3 is the generator of stream gen (C01): every root of posgen.Roots() itself (the hand
+// roots are the rule corner cases: castling through/next to attacked or occupied squares, en passant
+// on the edge files and with pins, promotions with captures ...; as play-out roots alone they would be
+// emitted only now and then), then genPositions (G1/G2/G4) up to n positions; in the thorough tier
+// followed by G3 (posgen/g3.go): the 3-piece materials KQK, KRK, KPK (white and black pawn), every
+// placement when n >= 102000 (1.83 M raw placements; strided to about 9n raw placements for smaller
+// n, which is only meant for trying the tier out), and the 4-piece materials strided to about n raw
+// placements in total.
+func genPositionsG3(rng *hx.Rng, n int, tier string, emit func(hx.Input)) {
+	mk := func(p posgen.Pos) hx.Input {
+		return hx.Input{In: (&hx.Nums{}).BoardIn(p.B).String(), Desc: p.Desc(),
+			Tags: append(posgen.Tags(p.B), p.Kind), NonTrivial: true, Key: p.B.FEN()}
+	}
+	// thorough tier: the small-material positions are enumerated concurrently and interleaved with the
+	// other positions at a fixed ratio (deterministic order), so that the contiguous shards of the
+	// model/judge runs cost about the same (a dense position costs the judge several times more)
+	var g3 chan hx.Input
+	ratio := 0
+	if tier == "thorough" && n > 0 {
+		stride3 := posgen.CoprimeStride(posgen.RawCount(posgen.Materials3) / (9 * n))
+		stride4 := posgen.CoprimeStride(posgen.RawCount(posgen.Materials4) / n)
+		est := posgen.RawCount(posgen.Materials3)/stride3*8/10 + posgen.RawCount(posgen.Materials4)/stride4*6/10
+		ratio = est/n + 1
+		g3 = make(chan hx.Input, 1024)
+		go func() {
+			posgen.SmallMaterial(stride3, stride4, func(p posgen.Pos) { g3 <- mk(p) })
+			close(g3)
+		}()
+	}
+	out := func(p posgen.Pos) {
+		emit(mk(p))
+		for k := 0; k < ratio && g3 != nil; k++ {
+			in, ok := <-g3
+			if !ok {
+				g3 = nil
+				break
+			}
+			emit(in)
+		}
+	}
+	cnt := 0
+	for _, r := range posgen.Roots() {
+		if cnt >= n {
+			break
+		}
+		if b, err := board.FromFEN(r); err == nil {
+			out(posgen.Pos{B: b, Root: r, Kind: "root"})
+			cnt++
+		}
+	}
+	if cnt < n {
+		posgen.Stream(rng, n-cnt, out)
+	}
+	if g3 != nil {
+		for in := range g3 {
+			emit(in)
+		}
+	}
 }
